@@ -14,8 +14,9 @@ can be stated over "every path on which an item of class X reaches struct.pack" 
 """
 import ast
 
-from .astutil import enclosing_function
+from .astutil import enclosing_function, dotted
 from .pathwalk import Walker, PathState, C
+from .immsites import ctor_fields
 
 
 class HWalker(Walker):
@@ -107,8 +108,17 @@ class HWalker(Walker):
             return m, {pos[0]: ('name', most[0])}, pos[1:]
         return m, {pos[0]: recv}, pos[1:]
 
+    TRANSPARENT_DECORATORS = {'staticmethod', 'classmethod'}
+
+    def _decorated(self, fn):
+        """A decorator may replace the function by anything (a memoising wrapper, a context manager ...): the body is not what a
+        call executes."""
+        names = [(dotted(d.func) if isinstance(d, ast.Call) else dotted(d)) for d in fn.decorator_list]
+        return any(n not in self.TRANSPARENT_DECORATORS and not (not isinstance(d, ast.Call) and identity_decorator(self.facts, n))
+                   for n, d in zip(names, fn.decorator_list))
+
     def _inlinable(self, fn, call):
-        return not (fn.name in self.opaque or (fn.name in self._inline_stack and fn.name != '<lambda>') or len(self._inline_stack) >= 10 or fn.args.vararg
+        return not self._decorated(fn) and not (fn.name in self.opaque or (fn.name in self._inline_stack and fn.name != '<lambda>') or len(self._inline_stack) >= 10 or fn.args.vararg
                     or any(isinstance(a, ast.Starred) for a in call.args))
 
     def inline_target(self, call, st):
@@ -124,7 +134,8 @@ class HWalker(Walker):
             if t[0] == 'closure' and self._defining_env(t[1], st) is None:
                 return None
             return t[1]
-        return super().inline_target(call, st)
+        fn = super().inline_target(call, st)
+        return None if fn is not None and self._decorated(fn) else fn
 
     def _defining_env(self, fn, st):
         dfn = enclosing_function(fn)
@@ -264,6 +275,11 @@ class HWalker(Walker):
 
     # -- value forms the base walker leaves opaque ---------------------------------------------------------------------------------
     def sym(self, node, st):
+        if isinstance(node, ast.NamedExpr) and isinstance(node.target, ast.Name):
+            # (x := e): the value of e, and x is bound to it from here on
+            v = self.sym(node.value, st)
+            st.env[node.target.id] = v
+            return v
         if isinstance(node, ast.JoinedStr):
             # f'{a}<{b:02x}' is '{}<{:02x}'.format(a, b)
             fmt, args = '', []
@@ -397,7 +413,32 @@ def _replace(root, old, new):
     return R().visit(root)
 
 
-def function_paths(facts, fn, inline='all', opaque=(), name_results=False, max_paths=20000, self_class=None, defaults=()):
+def identity_decorator(facts, name):
+    """`name` is a module-level function that hands its argument back unchanged (a registration decorator): every return returns
+    the first parameter, which is never rebound."""
+    fn = facts.funcs.get(name) if name else None
+    if fn is None or not fn.args.args or fn.decorator_list:
+        return False
+    p = fn.args.args[0].arg
+    rets = [n for n in ast.walk(fn) if isinstance(n, ast.Return)]
+    stores = [n for n in ast.walk(fn) if isinstance(n, ast.Name) and n.id == p and isinstance(n.ctx, ast.Store)]
+    nested = [n for n in ast.walk(fn) if isinstance(n, (ast.FunctionDef, ast.Lambda)) and n is not fn]
+    return bool(rets) and not stores and not nested and all(isinstance(r.value, ast.Name) and r.value.id == p for r in rets)
+
+
+def bind_siblings(w, st, fn, parent):
+    """A nested function walked on its own still sees the other functions nested in its parent (as closures whose free variables are
+    looked up in the same symbolic environment)."""
+    if parent is None:
+        return
+    for node in parent.body:
+        if isinstance(node, ast.FunctionDef) and node.name not in st.env and node.name != fn.name:
+            st.env[node.name] = ('closure', node.name, id(node))
+            w.__dict__.setdefault('_closures', {})[id(node)] = node
+    w._frames.append((parent, st.env))
+
+
+def function_paths(facts, fn, inline='all', opaque=(), name_results=False, max_paths=20000, self_class=None, defaults=(), parent=None):
     """Every path through the body of `fn` (a FunctionDef: module-level function, method or nested function) with its parameters
     symbolic (`self_class`: the class of the first parameter of a method).  Returns (walker, [PathState])."""
     w = HWalker(facts, root_fn=fn, inline=inline, opaque=opaque, name_results=name_results, max_paths=max_paths)
@@ -418,10 +459,11 @@ def function_paths(facts, fn, inline='all', opaque=(), name_results=False, max_p
     for name in defaults:
         if name in dflt:
             st.env[name] = w.sym(dflt[name], PathState())
+    bind_siblings(w, st, fn, parent if parent is not None else enclosing_function(fn))
     return w, w.run(fn.body, st)
 
 
-def loop_paths_h(facts, fn, inline='all', opaque=(), self_class=None):
+def loop_paths_h(facts, fn, inline='all', opaque=(), self_class=None, parent=None):
     """pathwalk.loop_paths with the higher-order walker: path summaries of one iteration of the first top-level `for` (or `while`)
     loop of `fn` (locals that the loop mutates are the symbolic ('lv', name)).  Returns (loop node, [PathState]); for a while loop
     the state before the loop is available as paths[i].pre_env."""
@@ -433,6 +475,7 @@ def loop_paths_h(facts, fn, inline='all', opaque=(), self_class=None):
         pre.env[a.arg] = ('name', a.arg)
     if self_class is not None and fn.args.args:
         pre.fact(('name', fn.args.args[0].arg))['isa'].add(self_class)
+    bind_siblings(w, pre, fn, parent if parent is not None else enclosing_function(fn))
     target = None
     prelude_done = []
     live = [pre]
@@ -480,6 +523,23 @@ def loop_paths_h(facts, fn, inline='all', opaque=(), self_class=None):
                     s.env[e.id] = ('item', e.id)
         results.extend(w.run(target.body, s))
     return target, results
+
+
+def normalise(facts, v):
+    """Rewrite <Cls(args...)>.attr to the constructor argument stored in that attribute (a freshly built object's field is the value
+    it was built from), and drop result wrappers."""
+    if not isinstance(v, tuple) or not v:
+        return v
+    if v[0] == 'res':
+        return normalise(facts, v[3])
+    v = tuple(normalise(facts, x) if isinstance(x, tuple) else x for x in v)
+    if v[0] == 'attr' and isinstance(v[1], tuple) and v[1] and v[1][0] == 'new' and v[1][1] in facts.classes:
+        order = dict(facts.full_attr_order(v[1][1]))
+        param = order.get(v[2])
+        fields = ctor_fields(facts, v[1])
+        if param in fields:
+            return fields[param]
+    return v
 
 
 def all_values(path):
